@@ -1,1 +1,665 @@
-fn main() { eprintln!("engine not built yet"); std::process::exit(2); }
+//! Engines `pos` (C23), `format` (C22), `lspstate` (C21): the real isograph language-server code
+//! driven in-process through the `isograph_lsp::verif` hook.
+mod gen_iso;
+mod proj;
+
+use common_lang_types::{EmbeddedLocation, Span, TextSource};
+use gen_iso::{gen_around, gen_doc, gen_literal};
+use hx_common::*;
+use isograph_compiler::{
+    update_sources,
+    watch::{ChangedFileKind, SourceEventKind},
+};
+use isograph_lsp::text_document::{
+    on_did_change_text_document, on_did_close_text_document, on_did_open_text_document,
+};
+use isograph_lsp::verif as lv;
+use isograph_schema::{
+    extract_iso_literals_from_file_content, read_iso_literals_source_from_relative_path,
+    IsoLiteralExtraction,
+};
+use lsp_types::{
+    DidChangeTextDocumentParams, DidCloseTextDocumentParams, DidOpenTextDocumentParams,
+    TextDocumentContentChangeEvent, TextDocumentIdentifier, TextDocumentItem,
+    VersionedTextDocumentIdentifier,
+};
+use proj::*;
+use std::cell::RefCell;
+use std::collections::BTreeMap;
+
+const CASE_FILE: &str = "src/case.ts";
+
+// ------------------------------------------------------------------------------------------
+// shared context: one project + one long-lived server for the stateless engines
+
+struct Ctx {
+    proj: Proj,
+    lsp: Lsp<'static>,
+    uses: usize,
+}
+
+fn new_lsp(proj: &Proj) -> Lsp<'static> {
+    let (tx, rx) = crossbeam::channel::unbounded::<lsp_server::Message>();
+    std::mem::forget(rx);
+    let tx: &'static crossbeam::channel::Sender<lsp_server::Message> = Box::leak(Box::new(tx));
+    lv::LspState::new(proj.state(), tx)
+}
+
+thread_local! {
+    static CTX: RefCell<Option<Ctx>> = const { RefCell::new(None) };
+}
+
+fn with_ctx<R>(f: impl FnOnce(&mut Ctx) -> R) -> R {
+    CTX.with(|c| {
+        let mut c = c.borrow_mut();
+        let stale = match c.as_ref() {
+            None => true,
+            Some(x) => x.uses > 400,
+        };
+        if stale {
+            let proj = Proj::new("doc");
+            let lsp = new_lsp(&proj);
+            *c = Some(Ctx { proj, lsp, uses: 0 });
+        }
+        let ctx = c.as_mut().unwrap();
+        ctx.uses += 1;
+        f(ctx)
+    })
+}
+
+fn drop_ctx() {
+    CTX.with(|c| {
+        if let Ok(mut c) = c.try_borrow_mut() {
+            if let Some(x) = c.take() {
+                std::mem::forget(x); // a panic may have left it half-updated
+            }
+        }
+    })
+}
+
+fn set_doc(ctx: &mut Ctx, content: &str) {
+    let rel = ctx.proj.rel(CASE_FILE);
+    ctx.lsp.compiler_state.db.insert_iso_literal(rel, content.to_string());
+}
+
+fn extraction(content: &str, start: usize, len: usize) -> IsoLiteralExtraction {
+    IsoLiteralExtraction {
+        const_export_name: None,
+        iso_literal_text: content[start..start + len].to_string(),
+        iso_literal_start_index: start,
+        has_associated_js_function: true,
+        iso_function_called_with_paren: true,
+    }
+}
+
+/// reference computation used only by the generators (to aim at meaningful positions)
+fn utf16_pos(content: &str, off: usize) -> (u32, u32) {
+    let before = &content[..off];
+    let line = before.matches('\n').count() as u32;
+    let ls = before.rfind('\n').map(|i| i + 1).unwrap_or(0);
+    (line, before[ls..].encode_utf16().count() as u32)
+}
+
+fn boundaries(s: &str) -> Vec<usize> {
+    (0..=s.len()).filter(|i| s.is_char_boundary(*i)).collect()
+}
+
+fn text_arg(f: &[&str], i: usize) -> String {
+    String::from_utf8(unhex(f[i]).expect("hex")).expect("utf8")
+}
+
+fn spans_string(lits: &[Lit]) -> String {
+    if lits.is_empty() {
+        "-".to_string()
+    } else {
+        lits.iter().map(|l| format!("{}:{}", l.start, l.len)).collect::<Vec<_>>().join(",")
+    }
+}
+
+fn parse_spans(s: &str) -> Vec<(usize, usize)> {
+    if s == "-" {
+        return vec![];
+    }
+    s.split(',')
+        .map(|p| {
+            let (a, b) = p.split_once(':').unwrap();
+            (a.parse().unwrap(), b.parse().unwrap())
+        })
+        .collect()
+}
+
+// ------------------------------------------------------------------------------------------
+// engine pos
+
+fn small_text(r: &mut Rng) -> String {
+    match r.below(4) {
+        0 => gen_literal(r),
+        1 => gen_text(r, 30, MIXED_ALPHABET),
+        2 => gen_text(r, 24, &["a", "b", "\n", "\n", " ", "é", "😀", "漢", "\r\n", "x"]),
+        _ => gen_around(r, 30),
+    }
+}
+
+fn gen_pos(r: &mut Rng) -> Vec<String> {
+    match r.below(12) {
+        0..=3 => {
+            let content = gen_doc(r);
+            let lits = with_ctx(|ctx| {
+                set_doc(ctx, &content);
+                let rel = ctx.proj.rel(CASE_FILE);
+                lits_of(&ctx.lsp.compiler_state.db, rel)
+            });
+            vec![format!("pos.doc\t{}\t{}", hex(content.as_bytes()), lits_string(&lits))]
+        }
+        4 => {
+            let content = if r.chance(1, 2) { gen_doc(r) } else { small_text(r) };
+            let off = if r.chance(1, 10) {
+                r.below(content.len() + 3)
+            } else {
+                *r.pick(&boundaries(&content))
+            };
+            vec![format!("pos.loc\t{}\t{}", hex(content.as_bytes()), off)]
+        }
+        5 => {
+            let t = small_text(r);
+            vec![format!("pos.dlds\t{}", hex(t.as_bytes()))]
+        }
+        6 | 7 => {
+            let src = small_text(r);
+            let (line, ch) = if r.chance(1, 8) {
+                (r.below(4) as u32, r.below(12) as u32)
+            } else {
+                let o = *r.pick(&boundaries(&src));
+                utf16_pos(&src, o)
+            };
+            vec![format!("pos.idx\t{}\t{}\t{}", hex(src.as_bytes()), line, ch)]
+        }
+        8..=10 => {
+            let content = gen_doc(r);
+            let lits = with_ctx(|ctx| {
+                set_doc(ctx, &content);
+                let rel = ctx.proj.rel(CASE_FILE);
+                lits_of(&ctx.lsp.compiler_state.db, rel)
+            });
+            let (line, ch) = if lits.is_empty() || r.chance(1, 6) {
+                let o = *r.pick(&boundaries(&content));
+                utf16_pos(&content, o)
+            } else {
+                let l = r.pick(&lits).clone();
+                let inner: Vec<usize> = (l.start..=l.start + l.len).filter(|i| content.is_char_boundary(*i)).collect();
+                utf16_pos(&content, *r.pick(&inner))
+            };
+            vec![format!("pos.hover\t{}\t{}\t{}\t{}", hex(content.as_bytes()), spans_string(&lits), line, ch)]
+        }
+        _ => {
+            let content = gen_doc(r);
+            let b = boundaries(&content);
+            let mut v = [*r.pick(&b), *r.pick(&b), *r.pick(&b)];
+            v.sort();
+            vec![format!("pos.range\t{}\t{}\t{}\t{}", hex(content.as_bytes()), v[0], v[1] - v[0], v[2] - v[0])]
+        }
+    }
+}
+
+fn run_pos_doc(f: &[&str]) -> String {
+    let content = text_arg(f, 1);
+    with_ctx(|ctx| {
+        set_doc(ctx, &content);
+        let rel = ctx.proj.rel(CASE_FILE);
+        let uri = ctx.proj.uri(CASE_FILE);
+        let lits = lits_of(&ctx.lsp.compiler_state.db, rel);
+        let ls = lits_string(&lits);
+        if ls != f[2] {
+            return format!("lits-mismatch\t{}", ls);
+        }
+        let toks = sem_tokens(&ctx.lsp, &uri);
+        let exts = extract_iso_literals_from_file_content(&ctx.lsp.compiler_state.db, rel).to_vec();
+        let mut rs = format!("R {}", exts.len());
+        for e in &exts {
+            let r = lv::get_range_of_extraction(e, &content);
+            rs.push_str(&format!(" {} {} {} {}", r.start.line, r.start.character, r.end.line, r.end.character));
+        }
+        format!("{}\t{}", toks, rs)
+    })
+}
+
+fn run_pos(f: &[&str]) -> String {
+    match f[0] {
+        "pos.doc" => run_pos_doc(f),
+        "pos.loc" => {
+            let content = text_arg(f, 1);
+            let off: usize = f[2].parse().unwrap();
+            let p = lv::char_index_to_position(&content, off);
+            format!("{}\t{}", p.line, p.character)
+        }
+        "pos.dlds" => {
+            let t = text_arg(f, 1);
+            let (a, b) = lv::delta_line_delta_start(&t);
+            format!("{}\t{}", a, b)
+        }
+        "pos.idx" => {
+            let src = text_arg(f, 1);
+            let lc = lv::LineChar { line: f[2].parse().unwrap(), character: f[3].parse().unwrap() };
+            format!("{}", lv::get_index_of_line_char(&src, lc))
+        }
+        "pos.hover" => {
+            let content = text_arg(f, 1);
+            let spans = parse_spans(f[2]);
+            let exts: Vec<IsoLiteralExtraction> = spans.iter().map(|(s, l)| extraction(&content, *s, *l)).collect();
+            let lc = lv::LineChar { line: f[3].parse().unwrap(), character: f[4].parse().unwrap() };
+            match lv::find_iso_literal_extraction_under_cursor(lc, &content, &exts) {
+                None => "none".to_string(),
+                Some((e, off)) => {
+                    let k = exts.iter().position(|x| x.iso_literal_start_index == e.iso_literal_start_index).unwrap();
+                    format!("{}\t{}", k, off)
+                }
+            }
+        }
+        "pos.range" => {
+            let content = text_arg(f, 1);
+            let base: u32 = f[2].parse().unwrap();
+            let s: u32 = f[3].parse().unwrap();
+            let e: u32 = f[4].parse().unwrap();
+            with_ctx(|ctx| {
+                let loc = EmbeddedLocation {
+                    text_source: TextSource {
+                        relative_path_to_source_file: ctx.proj.rel(CASE_FILE),
+                        span: Some(Span { start: base, end: content.len() as u32 }),
+                    },
+                    span: Span { start: s, end: e },
+                };
+                match lv::isograph_location_to_lsp_location(&ctx.lsp.compiler_state.db, loc, &content) {
+                    None => "none".to_string(),
+                    Some(l) => format!(
+                        "{}\t{}\t{}\t{}",
+                        l.range.start.line, l.range.start.character, l.range.end.line, l.range.end.character
+                    ),
+                }
+            })
+        }
+        _ => "bad-op".to_string(),
+    }
+}
+
+// ------------------------------------------------------------------------------------------
+// engine format
+
+fn gen_fmt(r: &mut Rng) -> Vec<String> {
+    let content = gen_doc(r);
+    let lits = with_ctx(|ctx| {
+        set_doc(ctx, &content);
+        let rel = ctx.proj.rel(CASE_FILE);
+        lits_of(&ctx.lsp.compiler_state.db, rel)
+    });
+    vec![format!("fmt.doc\t{}\t{}", hex(content.as_bytes()), lits_string(&lits))]
+}
+
+fn run_fmt_doc(f: &[&str]) -> String {
+    let content = text_arg(f, 1);
+    with_ctx(|ctx| {
+        set_doc(ctx, &content);
+        let rel = ctx.proj.rel(CASE_FILE);
+        let uri = ctx.proj.uri(CASE_FILE);
+        let lits = lits_of(&ctx.lsp.compiler_state.db, rel);
+        let ls = lits_string(&lits);
+        if ls != f[2] {
+            return format!("lits-mismatch\t{}", ls);
+        }
+        let edits = format_edits(&ctx.lsp, &uri);
+        let es = edits_string(&edits);
+        let edits = match edits {
+            Ok(Some(v)) => v,
+            _ => return es,
+        };
+        let accepted: Vec<usize> = (0..lits.len()).filter(|i| lits[*i].accepted).collect();
+        if accepted.len() != edits.len() {
+            return format!("{}\tO edit-count-mismatch", es);
+        }
+        // apply the edits by the literals' byte extents
+        let mut content2 = String::new();
+        let mut pos = 0;
+        for (k, j) in accepted.iter().enumerate() {
+            let l = &lits[*j];
+            content2.push_str(&content[pos..l.start]);
+            content2.push_str(&edits[k].new_text);
+            pos = l.start + l.len;
+        }
+        content2.push_str(&content[pos..]);
+        set_doc(ctx, &content2);
+        let db = &ctx.lsp.compiler_state.db;
+        let lits2 = lits_of(db, rel);
+        let exts2 = extract_iso_literals_from_file_content(db, rel).to_vec();
+        let mut obs = vec![];
+        for (k, j) in accepted.iter().enumerate() {
+            if lits2.len() != lits.len() {
+                obs.push("lost,-,-,-".to_string());
+                continue;
+            }
+            let l2 = &lits2[*j];
+            let e2 = &exts2[*j];
+            if e2.iso_literal_text != edits[k].new_text {
+                obs.push("moved,-,-,-".to_string());
+                continue;
+            }
+            let again = lv::format_extraction(db, e2, rel);
+            let idem = match &again {
+                Some(t) if *t == e2.iso_literal_text => "idem",
+                Some(_) => "non",
+                None => "none",
+            };
+            let toks = if l2.toks.is_empty() {
+                "-".to_string()
+            } else {
+                l2.toks
+                    .iter()
+                    .map(|(s, e, c)| {
+                        format!("{}.{}", hex(e2.iso_literal_text[*s as usize..*e as usize].as_bytes()), c)
+                    })
+                    .collect::<Vec<_>>()
+                    .join("+")
+            };
+            obs.push(format!(
+                "{},{},{},{}",
+                if l2.accepted { "ok" } else { "err" },
+                if l2.accepted && l2.decl == lits[*j].decl { "same" } else { "diff" },
+                idem,
+                toks
+            ));
+        }
+        format!("{}\tO {}", es, if obs.is_empty() { "-".to_string() } else { obs.join(" ") })
+    })
+}
+
+// ------------------------------------------------------------------------------------------
+// engine lspstate
+
+const FILES: &[&str] = &["src/a.ts", "src/b.ts", "src/c.ts"];
+
+const POOL_A: &[&str] = &[
+    "export const Home = iso(`\n  field Query.Home @component {\n    me {\n      name\n      Avatar\n    }\n  }\n`)(function H() { return null })\n",
+    "export const Home = iso(`\n  field Query.Home @component {\n    me {\n      nickname\n    }\n  }\n`)(function H() { return null })\n",
+    "// héllo 😀 wörld\nconst é = '漢'; export const Home = iso(`\n  field Query.Home @component {\n    me { name, age, Avatar }\n  }\n`)(function H() { return null })\n",
+    "export const Home = iso(`\n  field Query.Home {\n    me {\n      name\n`)(function H() { return null })\n",
+    "export const Home = iso(`field Query.Home { pets { nickname, owner { name } } }`)(function H() { return 1 })\n",
+];
+const POOL_B: &[&str] = &[
+    "export const Avatar = iso(`field User.Avatar { name, age }`)(function A() { return 2 })\n",
+    "export const Avatar2 = iso(`field User.Avatar2 { name }`)(function A() { return 2 })\n",
+    "export const Avatar = iso(`\n  field User.Avatar {\n    name\n    friend(first: 1) { name }\n  }\n`)(function A() { return 2 })\n",
+    "/* 😀 */ export const Avatar = iso(`field User.Avatar \"\"\"dé\nsc\"\"\" { id }`)(function A() { return 2 })\n",
+    "",
+];
+const POOL_C: &[&str] = &[
+    "iso(`entrypoint Query.Home`)\n",
+    "",
+    "iso(`entrypoint Query.Missing`)\n",
+    "iso(`entrypoint Query.Home`); iso(`entrypoint User.Avatar`)\n",
+    "const x = 1;\n",
+];
+
+fn pool_content(r: &mut Rng, file: usize) -> String {
+    if r.chance(1, 7) {
+        return gen_doc(r);
+    }
+    let pool = match file {
+        0 => POOL_A,
+        1 => POOL_B,
+        _ => POOL_C,
+    };
+    // occasionally content of another file's pool (cross-definitions, duplicates)
+    if r.chance(1, 10) {
+        let k = r.below(3);
+        return (*r.pick([POOL_A, POOL_B, POOL_C][k])).to_string();
+    }
+    (*r.pick(pool)).to_string()
+}
+
+fn gen_state(r: &mut Rng, i: u64) -> Vec<String> {
+    let mut v = vec![format!("case\t{}", i)];
+    let mut init = "init".to_string();
+    for f in 0..3 {
+        if r.chance(1, 6) {
+            init.push_str("\t~");
+        } else {
+            init.push_str(&format!("\t{}", hex(pool_content(r, f).as_bytes())));
+        }
+    }
+    v.push(init);
+    if r.chance(2, 3) {
+        v.push("check".to_string());
+    }
+    let n = r.range(2, 8);
+    for _ in 0..n {
+        let f = r.below(3);
+        let line = match r.below(10) {
+            0..=2 => format!("open\t{}\t{}", FILES[f], hex(pool_content(r, f).as_bytes())),
+            3..=4 => format!("change\t{}\t{}", FILES[f], hex(pool_content(r, f).as_bytes())),
+            5..=6 => format!("close\t{}", FILES[f]),
+            7..=8 => format!("write\t{}\t{}", FILES[f], hex(pool_content(r, f).as_bytes())),
+            _ => format!("remove\t{}", FILES[f]),
+        };
+        v.push(line);
+        if r.chance(2, 3) {
+            v.push("check".to_string());
+        }
+    }
+    if v.last().map(|s| s.as_str()) != Some("check") {
+        v.push("check".to_string());
+    }
+    v
+}
+
+struct St {
+    proj: Proj,
+    lsp: Option<Lsp<'static>>,
+    open: BTreeMap<String, String>,
+}
+
+thread_local! {
+    static ST: RefCell<Option<St>> = const { RefCell::new(None) };
+}
+
+fn effective(lsp: &Lsp, proj: &Proj, file: &str) -> Option<String> {
+    guarded(|| {
+        read_iso_literals_source_from_relative_path(&lsp.compiler_state.db, proj.rel(file))
+            .as_ref()
+            .map(|s| s.content.clone())
+    })
+    .unwrap_or(Some("<panic>".to_string()))
+}
+
+/// everything a client can observe for one server
+fn observe(lsp: &Lsp, proj: &Proj) -> Vec<(String, String)> {
+    let mut out = vec![("diag".to_string(), diagnostics(&lsp.compiler_state.db))];
+    for f in FILES {
+        let uri = proj.uri(f);
+        let eff = effective(lsp, proj, f);
+        out.push((format!("eff:{}", f), eff.clone().unwrap_or("~".to_string())));
+        out.push((format!("tokens:{}", f), sem_tokens(lsp, &uri)));
+        out.push((format!("format:{}", f), edits_string(&format_edits(lsp, &uri))));
+        if let Some(text) = eff {
+            // a few positions inside / around the first literal
+            let probe: Vec<usize> = match text.find('`') {
+                Some(i) => vec![i + 1, i + 3, i + 9, i + 16, i + 24, i + 40],
+                None => vec![0],
+            };
+            for p in probe {
+                let mut p = p.min(text.len());
+                while !text.is_char_boundary(p) {
+                    p -= 1;
+                }
+                let (l, c) = utf16_pos(&text, p);
+                out.push((format!("hover:{}", f), hover(lsp, &uri, l, c)));
+                out.push((format!("goto:{}", f), goto(lsp, &uri, l, c)));
+            }
+        }
+    }
+    out
+}
+
+fn run_state(f: &[&str]) -> String {
+    ST.with(|cell| {
+        let mut cell = cell.borrow_mut();
+        if cell.is_none() {
+            *cell = Some(St { proj: Proj::new("st"), lsp: None, open: BTreeMap::new() });
+        }
+        let st = cell.as_mut().unwrap();
+        match f[0] {
+            "case" => {
+                if let Some(l) = st.lsp.take() {
+                    std::mem::forget(l);
+                }
+                st.open.clear();
+                "-".to_string()
+            }
+            "init" => {
+                for (i, file) in FILES.iter().enumerate() {
+                    let p = st.proj.abs(file);
+                    let _ = std::fs::remove_file(&p);
+                    if f[1 + i] != "~" {
+                        std::fs::write(&p, unhex(f[1 + i]).unwrap()).unwrap();
+                    }
+                }
+                st.lsp = Some(new_lsp(&st.proj));
+                "ok".to_string()
+            }
+            "open" | "change" | "close" | "write" | "remove" => {
+                let file = f[1];
+                let uri = st.proj.uri(file);
+                let abs = st.proj.abs(file);
+                let lsp = st.lsp.as_mut().expect("init first");
+                let res = guarded(|| match f[0] {
+                    "open" => {
+                        let text = text_arg(f, 2);
+                        st.open.insert(file.to_string(), text.clone());
+                        on_did_open_text_document(
+                            lsp,
+                            DidOpenTextDocumentParams {
+                                text_document: TextDocumentItem {
+                                    uri,
+                                    language_id: "typescript".to_string(),
+                                    version: 1,
+                                    text,
+                                },
+                            },
+                        )
+                        .map_err(|e| format!("{:?}", e))
+                    }
+                    "change" => {
+                        let text = text_arg(f, 2);
+                        st.open.insert(file.to_string(), text.clone());
+                        on_did_change_text_document(
+                            lsp,
+                            DidChangeTextDocumentParams {
+                                text_document: VersionedTextDocumentIdentifier { uri, version: 2 },
+                                content_changes: vec![TextDocumentContentChangeEvent {
+                                    range: None,
+                                    range_length: None,
+                                    text,
+                                }],
+                            },
+                        )
+                        .map_err(|e| format!("{:?}", e))
+                    }
+                    "close" => {
+                        st.open.remove(file);
+                        on_did_close_text_document(
+                            lsp,
+                            DidCloseTextDocumentParams { text_document: TextDocumentIdentifier { uri } },
+                        )
+                        .map_err(|e| format!("{:?}", e))
+                    }
+                    "write" => {
+                        std::fs::write(&abs, unhex(f[2]).unwrap()).unwrap();
+                        update_sources(
+                            &mut lsp.compiler_state.db,
+                            &[(SourceEventKind::CreateOrModify(abs.clone()), ChangedFileKind::JavaScriptSourceFile)],
+                        )
+                        .map_err(|e| e.iter().map(|x| x.to_string()).collect::<Vec<_>>().join(";"))
+                    }
+                    _ => {
+                        let _ = std::fs::remove_file(&abs);
+                        update_sources(
+                            &mut lsp.compiler_state.db,
+                            &[(SourceEventKind::Remove(abs.clone()), ChangedFileKind::JavaScriptSourceFile)],
+                        )
+                        .map_err(|e| e.iter().map(|x| x.to_string()).collect::<Vec<_>>().join(";"))
+                    }
+                });
+                match res {
+                    None => "panic".to_string(),
+                    Some(Ok(())) => "ok".to_string(),
+                    Some(Err(e)) => format!("err:{}", e.replace([' ', '\t', '\n'], "_")),
+                }
+            }
+            "check" => {
+                let lsp = st.lsp.as_ref().expect("init first");
+                let inc = observe(lsp, &st.proj);
+                let mut fresh = new_lsp(&st.proj);
+                for (file, text) in &st.open {
+                    fresh.compiler_state.db.insert_open_file(st.proj.rel(file), text.clone());
+                }
+                let fr = observe(&fresh, &st.proj);
+                std::mem::forget(fresh);
+                let mut eff = String::from("eff");
+                for (k, v) in &inc {
+                    if let Some(file) = k.strip_prefix("eff:") {
+                        eff.push_str(&format!(" {}={}", file, if v == "~" { "~".to_string() } else { hex(v.as_bytes()) }));
+                    }
+                }
+                let mut kinds: Vec<String> = vec![];
+                for ((k, a), (_, b)) in inc.iter().zip(fr.iter()) {
+                    if a != b {
+                        let kind = k.split(':').next().unwrap().to_string();
+                        if !kinds.contains(&kind) {
+                            kinds.push(kind);
+                        }
+                    }
+                }
+                if inc.len() != fr.len() && kinds.is_empty() {
+                    kinds.push("shape".to_string());
+                }
+                if std::env::var("HX_DEBUG").is_ok() {
+                    for ((k, a), (_, b)) in inc.iter().zip(fr.iter()) {
+                        if a != b {
+                            eprintln!("DIFF {}\n  inc  ={}\n  fresh={}", k, a, b);
+                        }
+                    }
+                }
+                format!("{}\t{}", eff, if kinds.is_empty() { "agree".to_string() } else { format!("differ:{}", kinds.join(",")) })
+            }
+            _ => "bad-op".to_string(),
+        }
+    })
+}
+
+// ------------------------------------------------------------------------------------------
+
+fn main() {
+    let which = std::env::var("HX_ENGINE").unwrap_or_default();
+    main_loop(
+        &|r, i| match which.as_str() {
+            "format" => gen_fmt(r),
+            "lspstate" => gen_state(r, i),
+            _ => gen_pos(r),
+        },
+        &mut |f| {
+            let op = f[0];
+            let r = if op.starts_with("pos.") {
+                guarded(|| run_pos(f))
+            } else if op == "fmt.doc" {
+                guarded(|| run_fmt_doc(f))
+            } else {
+                Some(run_state(f))
+            };
+            match r {
+                Some(s) => s,
+                None => {
+                    drop_ctx();
+                    "panic".to_string()
+                }
+            }
+        },
+    );
+    cleanup();
+}
